@@ -16,6 +16,7 @@
    Executable definitions only. *)
 From Coq Require Import List Bool NArith.
 Import ListNotations.
+From Setec Require Import Base.SMap Server.KV.
 Open Scope N_scope.
 
 Definition period : N := 60000.            (* time.Minute *)
@@ -80,6 +81,25 @@ Fixpoint loop (fuel : nat) (ws : list N) (c : N) (t last r : N) (sc : list upl) 
   end.
 
 Definition fuel_for (c : N) : nat := S (S (N.to_nat (c / period))).
+
+(* ---- client events as database calls: whether a call is a WRITE is decided by the model of
+   the store (Server/KV.v), not by the caller.  A put of the bytes of the newest existing
+   version, an activate of the version already active, a delete of an absent secret, a
+   delete-version of an unknown version ... save nothing; a call whose save fails changes
+   nothing.  Values are tokens. ---- *)
+Definition dbev := (N * bool * kop N)%type.     (* instant, "the file system accepts a save", the call *)
+
+Definition is_saved (sv : saved) : bool := match sv with Saved => true | _ => false end.
+
+(* the events tagged with "the database file was replaced", and the store's state afterwards *)
+Fixpoint classify (s : kvs N) (evs : list dbev) : list (N * bool) * kvs N :=
+  match evs with
+  | [] => ([], s)
+  | (t, ok, o) :: r =>
+      let '(s', _, sv) := kv_step N.eqb ok s o in
+      let '(l, sf) := classify s' r in
+      ((t, is_saved sv) :: l, sf)
+  end.
 
 (* the instants at which the database file really changed: only these move the generation *)
 Definition ok_writes (tl : timeline) : list N := map fst (filter snd (writes tl)).
